@@ -779,6 +779,15 @@ class _Formatter:
             # raw via :attr:`_macro_until_depth` once entered).
             if second.string in {"!(", "![", "?", "??"}:
                 return False
+            if (
+                second.string in {"$(", "$[", "@(", "@$(", "${"}
+                and second.start[0] == first.end[0]
+                and second.start[1] > first.end[1]
+            ):
+                # ``echo $(ls) x:y`` / ``echo @(x)=y``: a name followed, after
+                # white space, by a xonsh substitution is a command with that
+                # substitution as its first argument - never a Python statement.
+                return True
         if second.type == ERRORTOKEN and second.string == "!":
             # Alias macro form: ``echo! raw stuff`` — subprocess.
             return True
